@@ -27,7 +27,7 @@ inductive Answer
 
 /-- the variables of `(*reader).run` and of its Conn -/
 structure RL where
-  offset : Int            -- `offset` in run: restart position (FirstOffset = -1, LastOffset = -2 before the first initialize)
+  offset : Int            -- `offset` in run: restart position (LastOffset = -1, FirstOffset = -2 before the first initialize)
   connOpen : Bool := false
   connOff : Int := 0      -- conn.offset
   out : List Rec := []    -- messages handed to sendMessage, in order
@@ -37,7 +37,7 @@ structure RL where
 resolve FirstOffset/LastOffset, clamp to `first`, `conn.Seek(offset, SeekAbsolute)` (fails with OffsetOutOfRange
 above `last`: run retries later) -/
 def initializeRL (s : RL) (first last : Int) : Option RL :=
-  let off := if s.offset = -1 then first else if s.offset = -2 then last else if s.offset < first then first else s.offset
+  let off := if s.offset = -2 then first else if s.offset = -1 then last else if s.offset < first then first else s.offset
   if off > last then none
   else some { s with offset := off, connOpen := true, connOff := off }
 
@@ -93,7 +93,8 @@ structure RBroker where
 
 def RBroker.first (b : RBroker) : Int := (b.items.head?.map (·.2)).getD b.hwm
 
-def frameHeader (ver : Nat) : Nat := if ver = 2 then 37 else if ver = 5 then 57 else 63
+/-- bytes of a fetch response frame before the message set (correlation id included), for the driver's 5-character topic names -/
+def frameHeader (ver : Nat) : Nat := (if ver = 2 then 37 else if ver = 5 then 57 else 63) + 4
 
 /-- rdBroker.answer -/
 def RBroker.answer (b : RBroker) (o : Int) : RBroker × Answer :=
